@@ -116,6 +116,7 @@ func c03ChildMain() int {
 				fmt.Fprintf(os.Stdout, "ERROR batch %d: %v\n", spec.FirstID+i, err)
 				return 4
 			}
+			HookSignalWrite()
 		}
 		if spec.Mode == "count" || spec.Settle {
 			// let persister, merger and purger run so that their points show up in the table
